@@ -120,10 +120,16 @@ def r_bits_msbf(d, x):
     return {'b%d' % i: (x['a'] >> (w - 1 - i)) & 1 for i in range(w)}
 
 
+def _concat_items(d):
+    pws = ints(d['parts'])
+    idx = ints(d['rep']) if d.get('rep') else list(range(len(pws)))
+    return [(i, pws[i]) for i in idx]
+
+
 def r_concat_lsbf(d, x):
     # ins[0] occupies the least significant bits
     v, sh = 0, 0
-    for i, w in enumerate(ints(d['parts'])):
+    for i, w in _concat_items(d):
         v |= x['in%d' % i] << sh
         sh += w
     return {'r': v}
@@ -132,7 +138,7 @@ def r_concat_lsbf(d, x):
 def r_concat_msbf(d, x):
     # ins[0] occupies the most significant bits
     v = 0
-    for i, w in enumerate(ints(d['parts'])):
+    for i, w in _concat_items(d):
         v = (v << w) | x['in%d' % i]
     return {'r': v}
 
